@@ -674,6 +674,13 @@ class Gen:
     def body(self, sc, persist, phase_names, cur, budget, depth, in_cond):
         rng = self.rng
         ops = []
+        if depth == 0 and rng.random() < 0.2:
+            # the builder is asked for a name before the user's variables exist
+            self.fresh_id += 1
+            alias = f"$fresh{self.fresh_id}"
+            self.ban_like("scratch")
+            ops += [["fresh", "scratch", alias], ["assign", alias, None, self.num_leaf(sc), [], 0]]
+            sc.nums.append(alias)
         while budget[0] > 0:
             budget[0] -= 1
             r = rng.random()
@@ -708,6 +715,11 @@ class Gen:
                     alias = f"$fresh{self.fresh_id}"
                     rhs = self.num_expr(sc, 1)
                     pref = rng.choice(["temp", "tmp", "x", "y", "<cond>"])
+                    mine = sorted(n for n in self.used_names if n in LOCAL_NAMES)
+                    if mine and rng.random() < 0.6:
+                        # a prefix the user's own statements already use (perhaps only since the builder's
+                        # first request for a name)
+                        pref = rng.choice(mine)
                     self.ban_like(pref)
                     new = [["fresh", pref, alias],
                            ["assign", alias, None, rhs, [], 0]] + new
